@@ -510,6 +510,136 @@ def factory_and_strict_cases(out, ck):
                           f"{len(body)} time(s); must be {want!r}" + (" with the body not run" if want == "tce" else ""), {"strict": repr(args)})
 
 
+class Node:
+    """module-level class named in quoted annotations below"""
+
+    def __init__(self, v=0):
+        self.v = v
+
+
+_FWD_RUNS = []
+
+
+def _fwd_plain(x: "Node", n: int) -> "Node":
+    _FWD_RUNS.append("plain")
+    return x
+
+
+def _fwd_optional(x: typing.Optional["Node"], n: int) -> typing.Optional["Node"]:
+    _FWD_RUNS.append("optional")
+    return x
+
+
+def _fwd_list(xs: typing.List["Node"], n: int) -> "typing.List[Node]":
+    _FWD_RUNS.append("list")
+    return xs
+
+
+def _fwd_dict(m: typing.Dict[str, "Node"], n: int) -> typing.Tuple["Node", int]:
+    _FWD_RUNS.append("dict")
+    return _FWD_RESULT[0]
+
+
+def _fwd_whole(x: "typing.Optional[Node]", n: "int") -> "typing.Union[Node, None]":
+    _FWD_RUNS.append("whole")
+    return x
+
+
+_FWD_RESULT = [None]
+
+
+def string_annotation_cases(out, ck):
+    """quoted class names at the top of an annotation and nested inside generics (`Optional["Node"]`, `List["Node"]`,
+    `Dict[str, "Node"]`), for a class of the function's own module: a well-typed call runs the body once and hands the
+    result through, an ill-typed one does not run it"""
+    tc = CHECKERS[ck]
+    node = Node(1)
+    _FWD_RESULT[0] = (node, 3)
+    table = [
+        (_fwd_plain, (node, 1), node, ("not a node", 1)),
+        (_fwd_optional, (node, 1), node, ("not a node", 1)),
+        (_fwd_optional, (None, 1), None, (3.5, 1)),
+        (_fwd_list, ([node, node], 1), None, ([node, "x"], 1)),
+        (_fwd_dict, ({"k": node}, 1), _FWD_RESULT[0], ({"k": 2}, 1)),
+        (_fwd_whole, (node, 1), node, (node, "one")),
+    ]
+    for fn0, good, want, bad in table:
+        try:
+            g = jaxtyped(typechecker=tc)(fn0)
+        except BaseException as e:  # noqa: BLE001
+            out.case(("fwd-decorate", fn0.__name__, ck), True, sample={"fn": fn0.__name__})
+            out.violation(f"forward-ref:decorate:{ck}", f"decorating {fn0.__name__} (quoted annotations naming a class of its module) raised {type(e).__name__}: {e}", {"forward": fn0.__name__, "checker": ck})
+            continue
+        _FWD_RUNS.clear()
+        try:
+            r = g(*good)
+            got = ("ret", (r is want or (want is None and r is good[0])) and len(_FWD_RUNS) == 1)
+        except BaseException as e:  # noqa: BLE001
+            got = ("raise", type(e).__name__ + ": " + str(e)[:160].replace("\n", " "))
+        out.case(("fwd", fn0.__name__, ck, repr(good)[:40]), True, sample={"fn": fn0.__name__, "outcome": repr(got)[:200], "runs": len(_FWD_RUNS)})
+        if got != ("ret", True):
+            out.violation(f"forward-ref:well-typed:{ck}", f"{fn0.__name__}{inspect.signature(fn0)} called with well-typed arguments gives {got}, body ran {len(_FWD_RUNS)}x; "
+                          f"must run once and return the very result", {"forward": fn0.__name__, "checker": ck})
+            continue
+        _FWD_RUNS.clear()
+        try:
+            g(*bad)
+            got = "returned"
+        except TypeCheckError:
+            got = "tce"
+        except BaseException as e:  # noqa: BLE001
+            got = "raise:" + type(e).__name__
+        out.case(("fwd-bad", fn0.__name__, ck), True, sample={"fn": fn0.__name__, "outcome": got, "runs": len(_FWD_RUNS)})
+        if got != "tce" or _FWD_RUNS:
+            out.violation(f"forward-ref:ill-typed:{ck}", f"{fn0.__name__} called with an argument violating its (quoted) annotation gives {got}, body ran {len(_FWD_RUNS)}x; "
+                          f"must be a TypeCheckError with the body not run", {"forward": fn0.__name__, "checker": ck})
+
+
+def stacked_decorator_cases(out, ck):
+    """`jaxtyped(typechecker=tc)` applied to something that is already a jaxtyped wrapper without a typechecker inside
+    (`jaxtyped(typechecker=None)(f)`: context only; bare `jaxtyped(f)`): the outer decoration still checks"""
+    tc = CHECKERS[ck]
+    runs = []
+
+    def mk():
+        def f(x: Float[Duck, "a"], /, y: Float[Duck, "a"], *rest: int, k: int = 0, **kw: str) -> Float[Duck, "a"]:
+            runs.append(1)
+            return x
+        return f
+
+    import warnings
+
+    layers = {
+        "typechecker=None": lambda f: jaxtyped(typechecker=None)(f),
+        "bare jaxtyped": lambda f: jaxtyped(f),
+        "typechecker=None twice": lambda f: jaxtyped(typechecker=None)(jaxtyped(typechecker=None)(f)),
+    }
+    a3, a4 = Duck((3,), "float32"), Duck((4,), "float32")
+    for lname, layer in layers.items():
+        with warnings.catch_warnings():
+            warnings.simplefilter("ignore")
+            try:
+                g = jaxtyped(typechecker=tc)(layer(mk()))
+            except BaseException as e:  # noqa: BLE001
+                out.case(("stacked-decorate", lname, ck), True, sample={"layer": lname})
+                out.violation(f"stacked:decorate:{ck}", f"decorating a function already wrapped by {lname} raised {type(e).__name__}: {e}", {"stacked": lname, "checker": ck})
+                continue
+        for args, kwargs, want in (((a3, a3), {}, "ret"), ((a3, a3, 1, 2), {"k": 5, "z": "s"}, "ret"), ((a3, a4), {}, "tce"), ((a3, a3, "no"), {}, "tce"), ((a3, a3), {"k": "no"}, "tce"), ((a3,), {}, "TypeError")):
+            runs.clear()
+            try:
+                r = g(*args, **kwargs)
+                got = "ret" if r is args[0] else "ret-other"
+            except TypeCheckError:
+                got = "tce"
+            except BaseException as e:  # noqa: BLE001
+                got = type(e).__name__
+            out.case(("stacked", lname, ck, len(args), tuple(sorted(kwargs)), want), True, sample={"layer": lname, "outcome": got, "runs": len(runs)})
+            ok = got == want and len(runs) == (1 if want == "ret" else 0)
+            if not ok:
+                out.violation(f"stacked:{ck}:{want}->{got}", f"jaxtyped(typechecker={ck}) over a function already wrapped by {lname}: a call that must end as {want} "
+                              f"(body {'once' if want == 'ret' else 'not run'}) ends as {got} with the body run {len(runs)}x", {"stacked": lname, "checker": ck})
+
+
 def descriptor_cases(out, ck):
     tc = CHECKERS[ck]
     deco = jaxtyped(typechecker=tc)
@@ -583,6 +713,8 @@ def run(tier, seed, out, drv, facts):
         descriptor_cases(out, ck)
         call_shape_cases(out, ck)
         factory_and_strict_cases(out, ck)
+        string_annotation_cases(out, ck)
+        stacked_decorator_cases(out, ck)
     for i in range(n):
         sig = gen_sig(rng)
         fname = rng.choice(["fn", "fn", "T0", "ret0", "default0", sig[0]["name"]])
@@ -601,3 +733,5 @@ def replay(rep, out, drv, facts):
             descriptor_cases(out, ck)
             call_shape_cases(out, ck)
             factory_and_strict_cases(out, ck)
+            string_annotation_cases(out, ck)
+            stacked_decorator_cases(out, ck)
